@@ -93,6 +93,10 @@ def canon_call(t):
         return t
     if any(head(a) == "star" for a in args) or len(args) > len(sig):
         return t
+    if head(f) == "glob" and f[1] in ("numpy.arange", "builtins.range") and len(args) == 1 and not any(k in ("start", "stop") for k, _ in t[3]):
+        # range-like signatures: a single positional argument is the stop, the start is 0  (np.arange(25) == np.arange(0, 25))
+        from .terms import const as _const
+        args = (_const(0), args[0])
     kws = list(t[3])
     names = {k for k, _ in kws}
     for name, a in zip(sig, args):
